@@ -85,9 +85,38 @@ var leafStatements = []string{"yang-version", "namespace", "prefix", "organizati
 	"default", "units", "status", "config", "mandatory", "presence", "ordered-by", "key", "unique", "min-elements", "max-elements",
 	"error-message", "error-app-tag", "value", "position", "yin-element", "fraction-digits", "path", "require-instance", "base", "if-feature"}
 
-// greyParents: the code deliberately leaves their substatement check to the
-// compiler (cardinality depends on the deviate kind / on the refined node).
-var greyParents = map[string]bool{"deviate": true, "refine": true}
+// variantParents: which substatements a refine or a deviate may hold depends on the node it is applied to (RFC 6020
+// 7.12.2, 7.18.3.2), which the parser cannot know; the implementation leaves that to the compiler (C14 'illegal' has
+// "a property not allowed on the target").  What does not depend on the target: a substatement the tables give 0..1
+// may not be written twice, and the ones they allow are accepted.  Index: refine, then deviate by kind
+// (not-supported, add, replace, delete).
+var variantParents = map[string]map[string]card{
+	"refine": {"config": c01, "default": c01, "description": c01, "mandatory": c01, "max-elements": c01, "min-elements": c01, "must": c0n, "presence": c01, "reference": c01},
+	"deviate not-supported": {},
+	"deviate add":     {"units": c01, "must": c0n, "unique": c0n, "default": c01, "config": c01, "mandatory": c01, "min-elements": c01, "max-elements": c01},
+	"deviate replace": {"type": c01, "units": c01, "default": c01, "config": c01, "mandatory": c01, "min-elements": c01, "max-elements": c01},
+	"deviate delete":  {"units": c01, "must": c0n, "unique": c0n, "default": c01},
+}
+
+var deviateKinds = []string{"not-supported", "add", "replace", "delete"}
+
+func variantVerdict(parent string, pkind int, child string, m int) int {
+	key := parent
+	if parent == "deviate" {
+		key = "deviate " + deviateKinds[pkind%4]
+	}
+	c, ok := variantParents[key][child]
+	if !ok {
+		if m == 0 {
+			return 1
+		}
+		return -1 // whether it is allowed depends on the target: the compiler's matter
+	}
+	if c.max >= 0 && m > c.max {
+		return 0
+	}
+	return 1
+}
 
 var allKeywords []string
 
@@ -119,9 +148,9 @@ func init() {
 }
 
 // verdict for (parent, child, multiplicity): 1 accept, 0 reject, -1 grey.
-func cardVerdict(parent, child string, m int) int {
-	if greyParents[parent] {
-		return -1
+func cardVerdict(parent string, pkind int, child string, m int) int {
+	if parent == "refine" || parent == "deviate" {
+		return variantVerdict(parent, pkind, child, m)
 	}
 	// RFC 6020 table 7.12.1 says 0..1 for augment/refine under uses while the ABNF says *: erratum
 	if parent == "uses" && (child == "augment" || child == "refine") && m == 2 {
